@@ -44,6 +44,24 @@ namespace bloch::compiler {
         // and stage the rest here, then flush them into the surrounding block.
         std::vector<std::unique_ptr<Statement>> m_extraStatements;
 
+        // Nesting depth of the construct being parsed. The tree is later walked recursively by
+        // the analyser, the evaluator and its own destructor, so unbounded nesting would overflow
+        // the stack; deeper input is a parse error.
+        static constexpr int kMaxNestingDepth = 256;
+        int m_depth = 0;
+        struct DepthGuard {
+            Parser& parser;
+            explicit DepthGuard(Parser& p) : parser(p) {
+                if (++parser.m_depth > kMaxNestingDepth) {
+                    --parser.m_depth;
+                    parser.reportError("nesting too deep");
+                }
+            }
+            ~DepthGuard() { --parser.m_depth; }
+            DepthGuard(const DepthGuard&) = delete;
+            DepthGuard& operator=(const DepthGuard&) = delete;
+        };
+
         // Token manipulation
         [[nodiscard]] const Token& peek() const;
         [[nodiscard]] const Token& previous() const;
